@@ -25,6 +25,7 @@ META = dict(
     technique="decision tables of the prune tests, complete non-aliasing recursion rule, own-index tag rule",
 )
 META["text"] += ' R3 also: the node function has exactly its four parameters, no mutable default and no global state.'
+META["text"] += ' R3 decides by short-circuit paths with three-valued decisions (a merged `if prune or not S` is read as its two cases). R5 also: every assertion of a type is appended (nothing before the append can leave the iteration) and the candidate list is a map over the ids handed in.'
 
 
 from ..canon import expand_locals  # noqa: E402
